@@ -554,7 +554,7 @@ C17Clauses(step) ==
 (* the returned string], doc: [source kind -> digest], read: [kind_how -> digest]] *)
 C16_same_text(step) ==
   \* pathover: the named file existed before and was longer than the new text
-  Cl("C16_same_text", TRUE, \A k \in {"text", "binary", "path", "pathover", "textfile"} : step.res.text[k])
+  Cl("C16_same_text", TRUE, \A k \in {"text", "binary", "path", "pathover", "textfile", "ntf"} : step.res.text[k])
 C16_same_doc(step) ==
   Cl("C16_same_doc", step.op.fmt \in Readable,
      \A k \in SrcKinds : step.res.doc[k] = step.res.src)
